@@ -1186,7 +1186,21 @@ impl Server {
         
         // Execute commands
         let mut results = Vec::new();
+        let mut db_index = db_index;
         for cmd_parts in commands_to_execute.iter() {
+            // SELECT inside a transaction switches the database of this connection:
+            // the following queued commands, and the connection afterwards, use it
+            let is_select = matches!(cmd_parts.get(0), Some(RespFrame::BulkString(Some(name)))
+                if name.eq_ignore_ascii_case(b"SELECT"));
+            if is_select {
+                match self.handle_select(cmd_parts.as_slice(), conn_id) {
+                    Ok(response) => results.push(response),
+                    Err(e) => results.push(RespFrame::error(e.to_string())),
+                }
+                db_index = self.connections.with_connection(conn_id, |conn| conn.db_index).unwrap_or(db_index);
+                continue;
+            }
+            
             match self.process_command_parts(&cmd_parts, db_index) {
                 Ok(response) => results.push(response),
                 Err(e) => {
